@@ -23,7 +23,7 @@ RULE = ("one run = Parallel(backend='loky', n_jobs 2..4, batch_size 1/2/auto) x 
         "1-8 tasks with results of 10 B / 3 KB / 100 KB (larger than the pipe capacity) x kill plan: 0-2 kills, victim = "
         "the worker that reaches the k-th yield point of a chosen kind (pipe write = sending a result, pipe read = "
         "receiving a call, lock/semaphore operations, task start, idle wait) or any worker at a global step, armed in "
-        "a chosen call or between calls x seeded schedule; distinct = digest of (thread role, event kind) sequence; "
+        "a chosen call or between calls x idle gaps of 400 s (> idle-worker timeout: workers exit and are respawned) x seeded schedule; distinct = digest of (thread role, event kind) sequence; "
         "non-trivial = a worker was killed while at least one task was pending")
 REAL_CODE = ["joblib.parallel.Parallel", "LokyBackend", "joblib.executor.MemmappingExecutor / get_memmapping_executor",
              "loky.reusable_executor (_ReusablePoolExecutor.get_reusable_executor)", "loky.process_executor (ProcessPoolExecutor, "
@@ -63,7 +63,10 @@ def gen_case(rng):
     for c in range(ncalls):
         n = rng.randint(1, 8)
         calls.append({"n": n, "sizes": [rng.choice([10, 10, 3000, 100000]) for _ in range(n)],
-                      "dur": [rng.choice([0.0, 0.0, 0.01, 0.2]) for _ in range(n)]})
+                      "dur": [rng.choice([0.0, 0.0, 0.01, 0.2]) for _ in range(n)],
+                      # idle for longer than the idle-worker timeout (300 s) before this call: the workers have exited
+                      # on their own and the call runs on freshly respawned ones
+                      "gap_before": 400.0 if (c > 0 and rng.random() < 0.25) else 0.0})
     nk = rng.choice([0, 1, 1, 1, 1, 2])
     kills = []
     for _ in range(nk):
@@ -71,6 +74,13 @@ def gen_case(rng):
                       "kind": rng.choice(KINDS), "nth": rng.choice([1, 1, 2, 2, 3, 4, 5, 7, 9]), "delay": rng.choice([0.0, 0.001, 0.02, 0.2]),
                       # how the victim dies decides its exit code only: SIGKILL, SIGTERM, SIGSEGV, real-time signals, os._exit(n)
                       "code": rng.choice([-9, -9, -9, -15, -11, -37, -62, 1, 3, 255])})
+    for c, call in enumerate(calls):
+        if call["gap_before"] and rng.random() < 0.6:
+            # few tasks on the respawned workers, one of which dies early in its first task
+            m = rng.choice([1, 1, 2, 3])
+            call.update(n=m, sizes=call["sizes"][:m] + [10] * (m - len(call["sizes"][:m])), dur=([0.0] + call["dur"])[:m] + [0.0] * (m - len(([0.0] + call["dur"])[:m])))
+            kills = [k for k in kills if k["call"] != c] + [{"call": c, "when": "during", "kind": rng.choice(["task", "label:running_task", "pread"]),
+                                                            "nth": 1, "delay": 0.0, "code": -9}]
     return {"n_jobs": n_jobs, "batch_size": rng.choice([1, 1, 2, "auto"]), "managed": rng.random() < 0.5, "calls": calls,
             "kills": kills, "strategy": dict(rng.choice(ds.STRATEGIES), **{"p_jump": 0.0}), "sched_seed": rng.randrange(1 << 31)}
 
@@ -203,7 +213,8 @@ def run_case(case):
     tmp = tempfile.mkdtemp(prefix="c10_", dir="/dev/shm")
     os.environ["JOBLIB_TEMP_FOLDER"] = tmp
     s = ds.run_sim(case["sched_seed"], None, decisions=case.get("decisions"), strategy=case.get("strategy"),
-                   trace_files=sp.TRACE_FILES, max_steps=case.get("max_steps", 400000), max_time=case.get("max_time", 150.0),
+                   trace_files=sp.TRACE_FILES, max_steps=case.get("max_steps", 400000),
+                   max_time=case.get("max_time", 150.0 + 1.2 * sum(c_.get("gap_before", 0.0) for c_ in case["calls"])),
                    keep_log=case.get("keep_log", 0))
     W = world = sp.World()
     sp.install(s, world)
@@ -259,6 +270,8 @@ def run_case(case):
         if case["managed"]:
             p.__enter__()
         for c, call in enumerate(case["calls"]):
+            if call.get("gap_before"):
+                s.sleep(call["gap_before"]); out["gaps"] = out.get("gaps", 0) + 1
             for k in case["kills"]:
                 if k["call"] == c and k["when"] == "before":
                     kill_idle(k)            # idle workers die between calls
@@ -340,6 +353,8 @@ def run_case(case):
             # healing: results of a call come from workers alive when they ran (never from a killed pid after its death)
             dead_at = {k["pid"]: k["t"] for k in kills}
     faults = collections.Counter()
+    if out.get("gaps"):
+        faults["idle_gap_beyond_worker_timeout"] += out["gaps"]
     for k in kills:
         faults["worker_killed:" + k["where"].split(":")[0]] += 1
     pend = any(k["during_call"] is not None for k in kills)
